@@ -1,3 +1,4 @@
+import LP.Props.GenTables
 import LP.Props.C15
 import LP.Props.C15V
 import LP.Props.C15P
@@ -14,3 +15,8 @@ import LP.Props.C15P
 #print axioms LP.QI.sumPowers_encloses
 #print axioms LP.QI.polyValue_encloses
 #print axioms LP.VI.consistentInterval_sound
+#print axioms LP.Gen.enum_order
+#print axioms LP.Gen.negate_eq
+#print axioms LP.Gen.consistent_eq
+#print axioms LP.Gen.zpValid_eq
+#print axioms LP.Gen.consistentInterval_eq
